@@ -112,6 +112,70 @@ func genResolver() {
 		fail("ResolverFacts: case state.EndpointsOnlyChange not found in HandleEventBatch")
 	}
 	m.strs("endpointsOnlyArm", arm, "statements of the `case state.EndpointsOnlyChange` arm of HandleEventBatch")
+
+	// the ClusterStateChange arm, the case list of the switch, and everything after the switch (error recording)
+	var clusterArm, switchCases, afterSwitch []string
+	for i, st := range heb.Body.List {
+		sw, ok := st.(*ast.SwitchStmt)
+		if !ok || sw.Tag == nil || hd.text(sw.Tag) != "changeType" {
+			continue
+		}
+		for _, c := range sw.Body.List {
+			cc := c.(*ast.CaseClause)
+			label := "default"
+			if len(cc.List) > 0 {
+				label = ""
+				for j, e := range cc.List {
+					if j > 0 {
+						label += ", "
+					}
+					label += hd.text(e)
+				}
+			}
+			switchCases = append(switchCases, label)
+			if label == "state.ClusterStateChange" {
+				for _, b := range cc.Body {
+					clusterArm = append(clusterArm, hd.text(b))
+				}
+			}
+		}
+		for _, rest := range heb.Body.List[i+1:] {
+			afterSwitch = append(afterSwitch, hd.text(rest))
+		}
+	}
+	if len(clusterArm) == 0 {
+		fail("ResolverFacts: case state.ClusterStateChange not found in HandleEventBatch")
+	}
+	m.strs("clusterStateArm", clusterArm, "statements of the `case state.ClusterStateChange` arm of HandleEventBatch")
+	m.strs("handleEventBatchSwitchCases", switchCases, "case labels of `switch changeType` in HandleEventBatch")
+	m.strs("handleEventBatchAfterSwitch", afterSwitch, "statements of HandleEventBatch after `switch changeType`")
+
+	// every statement of handler.go that touches h.latestConfiguration, with the function it is in
+	var latestUses []string
+	for _, d := range hd.f.Decls {
+		fd, ok := d.(*ast.FuncDecl)
+		if !ok || fd.Body == nil {
+			continue
+		}
+		var visit func(list []ast.Stmt)
+		visit = func(list []ast.Stmt) {
+			for _, st := range list {
+				hit := false
+				walk(st, func(n ast.Node) bool {
+					if sel, ok := n.(*ast.SelectorExpr); ok && sel.Sel.Name == "latestConfiguration" {
+						hit = true
+					}
+					return true
+				})
+				if hit {
+					latestUses = append(latestUses, fd.Name.Name+": "+hd.text(st))
+				}
+			}
+		}
+		visit(fd.Body.List)
+	}
+	m.strs("latestConfigurationUses", latestUses,
+		"top-level statements of handler.go functions that mention the field latestConfiguration")
 }
 
 // resolverStmts renders the top-level statements of a block without comments.
